@@ -6,6 +6,9 @@ import json, os, subprocess, sys, tempfile, shutil, re
 from concurrent.futures import ThreadPoolExecutor
 V='/verif'; REPO=os.environ.get('REPO','/repo')
 cat=json.load(open(f'{V}/mutants/catalog.json'))
+# MUT_ONLY=id,id,… restricts the run; results are merged into mutants/observed.json
+ONLY=set(filter(None,os.environ.get('MUT_ONLY','').split(',')))
+if ONLY: cat=[m for m in cat if m['id'] in ONLY]
 def run(m):
     if m.get('skip'): return m['id'],{'status':'skipped'}
     d=tempfile.mkdtemp(prefix='mut.')
@@ -31,7 +34,10 @@ def run(m):
 jobs=int(sys.argv[1]) if len(sys.argv)>1 else 5
 with ThreadPoolExecutor(jobs) as ex:
     res=dict(ex.map(run,cat))
-json.dump(res,open(f'{V}/mutants/observed.json','w'),indent=1)
+if ONLY and os.path.exists(f'{V}/mutants/observed.json'):
+    old=json.load(open(f'{V}/mutants/observed.json')); old.update(res); json.dump(old,open(f'{V}/mutants/observed.json','w'),indent=1)
+else:
+    json.dump(res,open(f'{V}/mutants/observed.json','w'),indent=1)
 for m in cat:
     r=res[m['id']]
     exp=[x for x in m.get('rules',[])]
